@@ -28,14 +28,272 @@ Proof.
     apply Permutation_app_head, IH.
 Qed.
 
+Lemma NoDup_app_disjoint {A} (l1 l2 : list A) x : NoDup (l1 ++ l2) -> In x l1 -> In x l2 -> False.
+Proof.
+  induction l1 as [|a r IH]; intros ND H1 H2; [destruct H1|].
+  simpl in ND. inversion ND as [|? ? Hn ND']; subst. destruct H1 as [->|H1].
+  - apply Hn. apply in_or_app. right; exact H2.
+  - apply IH; assumption.
+Qed.
+
+Lemma nodup_app_r {A} (l1 l2 : list A) : NoDup (l1 ++ l2) -> NoDup l2.
+Proof. induction l1 as [|a r IH]; simpl; intros H; [exact H|]. inversion H; subst. apply IH; assumption. Qed.
+Lemma nodup_app_l {A} (l1 l2 : list A) : NoDup (l1 ++ l2) -> NoDup l1.
+Proof.
+  induction l1 as [|a r IH]; simpl; intros H; [constructor|]. inversion H as [|? ? Hn H']; subst. constructor.
+  - intros Hin. apply Hn. apply in_or_app. left; exact Hin.
+  - apply IH; exact H'.
+Qed.
+
+Lemma in_flat_map_nth {A B} (f : A -> list B) l k e x : nth_error l k = Some e -> In x (f e) -> In x (flat_map f l).
+Proof. intros Hk Hx. apply in_flat_map. exists e. split; [eapply nth_error_In; eassumption|exact Hx]. Qed.
+
 Lemma NoDup_flat_map_nth {A B} (f : A -> list B) l : NoDup (flat_map f l) ->
   forall i j a b x, i <> j -> nth_error l i = Some a -> nth_error l j = Some b -> In x (f a) -> In x (f b) -> False.
 Proof.
   induction l as [|c r IH]; intros ND i j a b x Hne Hi Hj Ia Ib; [destruct i; discriminate|].
-  simpl in ND. assert (NDr : NoDup (flat_map f r)) by (apply NoDup_app_remove_l in ND; exact ND).
-  assert (Cross : forall k e, nth_error r k = Some e -> In x (f c) -> In x (f e) -> False).
-  { intros k e Hk Ic Ie. revert ND. clear - Hk Ic Ie.
-    intros ND. apply (proj1 (NoDup_app_iff' _ _)) in ND || idtac.
-    fail. }
-  fail.
-Abort.
+  simpl in ND. pose proof (nodup_app_r _ _ ND) as NDr.
+  destruct i as [|i]; destruct j as [|j]; simpl in Hi, Hj.
+  - congruence.
+  - injection Hi as ->. eapply (NoDup_app_disjoint _ _ x ND); [exact Ia|]. eapply in_flat_map_nth; eassumption.
+  - injection Hj as ->. eapply (NoDup_app_disjoint _ _ x ND); [exact Ib|]. eapply in_flat_map_nth; eassumption.
+  - eapply (IH NDr i j a b x); try eassumption. congruence.
+Qed.
+
+(* ------------------------------------------------------------------------------------------------ the queue specification *)
+Section Spec.
+  Variable Q : Type.
+  Variable q_empty : Q.
+  Variable q_enq : Q -> nat -> Q.
+  Variable q_deq : Q -> nat -> option (nat * Q).
+  Variable q_items : Q -> list nat.
+  Hypothesis H_empty : q_items q_empty = [].
+  Hypothesis H_enq : forall q x, Permutation (q_items (q_enq q x)) (x :: q_items q).
+  Hypothesis H_deq_some : forall q k x q', q_deq q k = Some (x, q') -> Permutation (q_items q) (x :: q_items q').
+  Hypothesis H_deq_none : forall q k, q_deq q k = None <-> q_items q = [].
+
+  Notation pstate := (pstate Q).
+  Notation pinit := (pinit Q q_empty q_enq).
+  Notation pstep := (pstep Q q_enq q_deq).
+  Notation prun := (prun Q q_enq q_deq).
+  Notation drain := (drain Q q_deq).
+  Notation recycle := (recycle Q q_enq).
+  Notation fill := (fill Q q_enq).
+
+  Definition hl (r : option nat) : list nat := match r with Some x => [x] | None => [] end.
+
+  Lemma recycle_items q r : Permutation (q_items (recycle q r)) (hl r ++ q_items q).
+  Proof. destruct r; simpl; [apply H_enq|reflexivity]. Qed.
+
+  Lemma fill_items n : forall q i, Permutation (q_items (fill q i n)) (q_items q ++ seq i n).
+  Proof.
+    induction n as [|n IH]; intros q i; simpl; [rewrite app_nil_r; reflexivity|].
+    rewrite IH. rewrite (H_enq q i). simpl. apply Permutation_middle.
+  Qed.
+
+  (* every resource is in exactly one place: a live handle or the queue *)
+  Definition PInv (s : pstate) : Prop :=
+    p_alive s = true ->
+    Permutation (held s ++ q_items (p_q s)) (seq 0 (p_size s)) /\ p_constructed s = seq 0 (p_size s) /\ p_destroyed s = [].
+
+  Lemma held_repeat_dead n : flat_map held_of (repeat HDead n) = [].
+  Proof. induction n; simpl; auto. Qed.
+
+  Lemma PInv_init size nh : PInv (pinit size nh).
+  Proof.
+    intros _. unfold ResPoolModel.pinit, ResPoolModel.held; simpl. rewrite held_repeat_dead. simpl.
+    split; [|split; reflexivity]. rewrite fill_items, H_empty. reflexivity.
+  Qed.
+
+  Lemma valid_alive (s : pstate) o : valid_op s o = true -> p_alive s = true.
+  Proof. unfold ResPoolModel.valid_op. intros H. apply andb_prop in H. tauto. Qed.
+
+  Lemma PInv_step (s : pstate) o s' : PInv s -> pstep s o = Some s' -> PInv s'.
+  Proof.
+    intros I H. unfold ResPoolModel.pstep in H.
+    destruct (valid_op s o) eqn:V; simpl in H; [|discriminate].
+    pose proof (valid_alive _ _ V) as AL. destruct (I AL) as (P & C & D).
+    unfold ResPoolModel.valid_op in V. rewrite AL in V. simpl in V.
+    unfold ResPoolModel.held in *.
+    destruct o as [h k|h|d sr|d sr|].
+    - (* acquire *)
+      destruct (nth_error (p_handles s) h) as [[|r]|] eqn:Nh; try discriminate.
+      destruct (q_deq (p_q s) k) as [[x q']|] eqn:Dq; [|discriminate]. injection H as <-. intros _; unfold ResPoolModel.held; simpl.
+      split; [|auto]. pose proof (flat_map_upd_perm held_of (p_handles s) h (HLive (Some x)) HDead Nh) as U. simpl in U.
+      rewrite U. rewrite <- P. rewrite (H_deq_some _ _ _ _ Dq). simpl. apply Permutation_middle.
+    - (* release *)
+      destruct (nth_error (p_handles s) h) as [[|r]|] eqn:Nh; try discriminate.
+      injection H as <-. intros _; unfold ResPoolModel.held; simpl. split; [|auto].
+      pose proof (flat_map_upd_perm held_of (p_handles s) h HDead (HLive r) Nh) as U. simpl in U.
+      rewrite recycle_items. rewrite <- P. rewrite <- U. fold (hl r).
+      rewrite !app_assoc. apply Permutation_app_tail. apply Permutation_app_comm.
+    - (* move construct *)
+      destruct (nth_error (p_handles s) d) as [[|rd]|] eqn:Nd; try discriminate.
+      destruct (nth_error (p_handles s) sr) as [[|r]|] eqn:Ns; try discriminate.
+      injection H as <-. intros _; unfold ResPoolModel.held; simpl. split; [|auto].
+      assert (Hne : d <> sr) by (intros ->; congruence).
+      pose proof (flat_map_upd_perm held_of (p_handles s) d (HLive r) HDead Nd) as U1. simpl in U1.
+      assert (Ns' : nth_error (upd d (HLive r) (p_handles s)) sr = Some (HLive r)) by (rewrite rp_nth_upd_neq by exact Hne; exact Ns).
+      pose proof (flat_map_upd_perm held_of _ sr (HLive None) (HLive r) Ns') as U2. simpl in U2.
+      rewrite <- P. apply Permutation_app_tail. fold (hl r) in *.
+      apply (Permutation_app_inv_l (hl r)). rewrite U2. exact U1.
+    - (* move assign *)
+      destruct (Nat.eqb d sr) eqn:E.
+      + injection H as <-. exact I.
+      + apply Nat.eqb_neq in E.
+        destruct (nth_error (p_handles s) d) as [[|rd]|] eqn:Nd; try discriminate.
+        destruct (nth_error (p_handles s) sr) as [[|rs]|] eqn:Ns; try discriminate.
+        injection H as <-. intros _; unfold ResPoolModel.held; simpl. split; [|auto].
+        pose proof (flat_map_upd_perm held_of (p_handles s) d (HLive rs) (HLive rd) Nd) as U1. simpl in U1.
+        assert (Ns' : nth_error (upd d (HLive rs) (p_handles s)) sr = Some (HLive rs)) by (rewrite rp_nth_upd_neq by exact E; exact Ns).
+        pose proof (flat_map_upd_perm held_of _ sr (HLive None) (HLive rs) Ns') as U2. simpl in U2.
+        fold (hl rs) (hl rd) in *.
+        rewrite recycle_items. rewrite <- P.
+        set (H2 := flat_map held_of (upd sr (HLive None) (upd d (HLive rs) (p_handles s)))) in *.
+        set (H1 := flat_map held_of (upd d (HLive rs) (p_handles s))) in *.
+        set (H0 := flat_map held_of (p_handles s)) in *.
+        (* U2 : hl rs ++ H2 ~ H1 ;  U1 : hl rd ++ H1 ~ hl rs ++ H0 *)
+        apply (Permutation_app_inv_l (hl rs)).
+        rewrite !app_assoc. rewrite U2.
+        rewrite (Permutation_app_comm H1 (hl rd)). rewrite U1. rewrite <- !app_assoc. reflexivity.
+    - (* destroy pool *)
+      destruct (drain (p_q s) (p_size s)) as [[l q']|]; [|discriminate]. injection H as <-. intros X; simpl in X. discriminate.
+  Qed.
+
+  Lemma PInv_run ops : forall s, PInv s -> PInv (prun s ops).
+  Proof.
+    induction ops as [|o r IH]; intros s I; simpl; [exact I|].
+    destruct (pstep s o) as [s'|] eqn:E; [apply IH; eapply PInv_step; eassumption|apply IH; exact I].
+  Qed.
+
+  Lemma size_step (s : pstate) o s' : pstep s o = Some s' -> p_size s' = p_size s.
+  Proof.
+    unfold ResPoolModel.pstep. destruct (negb (valid_op s o)); [discriminate|].
+    destruct o as [h k|h|d sr|d sr|].
+    - destruct (q_deq (p_q s) k) as [[x q']|]; [|discriminate]. intros H; injection H as <-; reflexivity.
+    - destruct (nth_error (p_handles s) h) as [[|r]|]; try discriminate. intros H; injection H as <-; reflexivity.
+    - destruct (nth_error (p_handles s) sr) as [[|r]|]; try discriminate. intros H; injection H as <-; reflexivity.
+    - destruct (Nat.eqb d sr); [intros H; injection H as <-; reflexivity|].
+      destruct (nth_error (p_handles s) d) as [[|rd]|]; try discriminate.
+      destruct (nth_error (p_handles s) sr) as [[|rs]|]; try discriminate. intros H; injection H as <-; reflexivity.
+    - destruct (drain (p_q s) (p_size s)) as [[l q']|]; [|discriminate]. intros H; injection H as <-; reflexivity.
+  Qed.
+
+  Lemma size_run ops : forall s, p_size (prun s ops) = p_size s.
+  Proof.
+    induction ops as [|o r IH]; intros s; simpl; [reflexivity|].
+    destruct (pstep s o) as [s'|] eqn:E; [rewrite IH; eapply size_step; exact E|apply IH].
+  Qed.
+
+  (* ---- the four parts of the property, for every interleaving [ops] *)
+  Theorem held_le_size_proof size nh ops : let s := prun (pinit size nh) ops in
+    p_alive s = true -> length (held s) <= size /\ length (held s) + length (q_items (p_q s)) = size.
+  Proof.
+    cbv zeta. intros AL. destruct (PInv_run ops _ (PInv_init size nh) AL) as (P & _).
+    rewrite size_run in P. simpl in P. apply Permutation_length in P. rewrite app_length, seq_length in P. lia.
+  Qed.
+
+  Theorem exclusive_holding_proof size nh ops : let s := prun (pinit size nh) ops in
+    p_alive s = true ->
+    NoDup (held s ++ q_items (p_q s)) /\
+    (forall x, In x (held s ++ q_items (p_q s)) <-> x < size) /\
+    (forall h1 h2 x, h1 <> h2 -> nth_error (p_handles s) h1 = Some (HLive (Some x)) -> nth_error (p_handles s) h2 = Some (HLive (Some x)) -> False) /\
+    (forall h x, nth_error (p_handles s) h = Some (HLive (Some x)) -> ~ In x (q_items (p_q s))).
+  Proof.
+    cbv zeta. intros AL. destruct (PInv_run ops _ (PInv_init size nh) AL) as (P & _).
+    rewrite size_run in P. simpl in P.
+    assert (ND : NoDup (held (prun (pinit size nh) ops) ++ q_items (p_q (prun (pinit size nh) ops)))).
+    { eapply Permutation_NoDup; [apply Permutation_sym; exact P|apply seq_NoDup]. }
+    split; [exact ND|]. split; [|split].
+    - intros x. split.
+      + intros H. eapply Permutation_in in H; [|exact P]. apply in_seq in H. lia.
+      + intros H. eapply Permutation_in; [apply Permutation_sym; exact P|]. apply in_seq. lia.
+    - intros h1 h2 x Hne H1 H2. pose proof (nodup_app_l _ _ ND) as NDh.
+      eapply (NoDup_flat_map_nth held_of _ NDh h1 h2 _ _ x Hne H1 H2); simpl; auto.
+    - intros h x Hh Hin. eapply (NoDup_app_disjoint _ _ x ND); [|exact Hin].
+      unfold ResPoolModel.held. eapply in_flat_map_nth; [exact Hh|]. simpl; auto.
+  Qed.
+
+  Theorem acquire_blocks_iff_proof size nh ops h k : let s := prun (pinit size nh) ops in
+    valid_op s (PAcquire h k) = true ->
+    (pstep s (PAcquire h k) = None <-> length (held s) = size).
+  Proof.
+    cbv zeta. intros V. pose proof (valid_alive _ _ V) as AL.
+    destruct (held_le_size_proof size nh ops AL) as (_ & Sum).
+    unfold ResPoolModel.pstep. rewrite V. simpl.
+    destruct (q_deq (p_q (prun (pinit size nh) ops)) k) as [[x q']|] eqn:Dq.
+    - split; [discriminate|]. intros L. exfalso.
+      assert (E : q_items (p_q (prun (pinit size nh) ops)) = []) by (apply length_zero_iff_nil; lia).
+      apply (H_deq_none _ k) in E. congruence.
+    - split; [|reflexivity]. intros _. apply H_deq_none in Dq. rewrite Dq in Sum. simpl in Sum. lia.
+  Qed.
+
+  Lemma drain_all n : forall q, length (q_items q) = n ->
+    exists l q', drain q n = Some (l, q') /\ Permutation (q_items q) l /\ q_items q' = [].
+  Proof.
+    induction n as [|n IH]; intros q L; simpl.
+    - exists [], q. apply length_zero_iff_nil in L. rewrite L. auto.
+    - destruct (q_deq q 0) as [[x q1]|] eqn:Dq.
+      + pose proof (H_deq_some _ _ _ _ Dq) as P. assert (L1 : length (q_items q1) = n).
+        { apply Permutation_length in P. simpl in P. lia. }
+        destruct (IH q1 L1) as (l & q' & E & P' & Em). rewrite E. exists (x :: l), q'.
+        split; [reflexivity|]. split; [rewrite P; apply perm_skip, P'|exact Em].
+      + apply H_deq_none in Dq. rewrite Dq in L. discriminate.
+  Qed.
+
+  Lemma drain_short n : forall q, length (q_items q) < n -> drain q n = None.
+  Proof.
+    induction n as [|n IH]; intros q L; simpl; [lia|].
+    destruct (q_deq q 0) as [[x q1]|] eqn:Dq; [|reflexivity].
+    pose proof (H_deq_some _ _ _ _ Dq) as P. apply Permutation_length in P. simpl in P. rewrite IH by lia. reflexivity.
+  Qed.
+
+  Theorem dtor_destroys_each_once_proof size nh ops : let s := prun (pinit size nh) ops in
+    p_alive s = true -> held s = [] ->
+    exists s', pstep s PDestroyPool = Some s' /\
+      Permutation (p_destroyed s') (seq 0 size) /\ NoDup (p_destroyed s') /\
+      p_constructed s' = seq 0 size /\ q_items (p_q s') = [] /\ p_alive s' = false.
+  Proof.
+    cbv zeta. intros AL Hh. destruct (PInv_run ops _ (PInv_init size nh) AL) as (P & C & D).
+    rewrite size_run in P, C. simpl in P, C. rewrite Hh in P. simpl in P.
+    set (s := prun (pinit size nh) ops) in *.
+    assert (L : length (q_items (p_q s)) = p_size s).
+    { unfold s at 2. rewrite size_run. simpl. apply Permutation_length in P. rewrite seq_length in P. exact P. }
+    destruct (drain_all _ _ L) as (l & q' & E & Pl & Em).
+    unfold ResPoolModel.pstep, ResPoolModel.valid_op. rewrite AL. simpl. rewrite E.
+    eexists. split; [reflexivity|]. simpl. rewrite D. simpl.
+    assert (Pd : Permutation l (seq 0 size)) by (rewrite <- Pl; exact P).
+    split; [exact Pd|]. split; [eapply Permutation_NoDup; [apply Permutation_sym; exact Pd|apply seq_NoDup]|]. auto.
+  Qed.
+
+  Theorem dtor_blocks_if_outstanding_proof size nh ops : let s := prun (pinit size nh) ops in
+    p_alive s = true -> held s <> [] -> pstep s PDestroyPool = None.
+  Proof.
+    cbv zeta. intros AL Hh. destruct (held_le_size_proof size nh ops AL) as (_ & Sum).
+    set (s := prun (pinit size nh) ops) in *.
+    unfold ResPoolModel.pstep, ResPoolModel.valid_op. rewrite AL. simpl.
+    rewrite drain_short; [reflexivity|]. unfold s at 2. rewrite size_run. simpl.
+    destruct (held s); [congruence|]. simpl in Sum. lia.
+  Qed.
+End Spec.
+
+(* ------------------------------------------------------------------------------------------------ the reference queue meets the specification *)
+Lemma remove_nth_perm l : forall i d, i < length l -> Permutation l (nth i l d :: remove_nth i l).
+Proof.
+  induction l as [|x r IH]; intros [|i] d H; simpl in *; try lia; [reflexivity|].
+  rewrite (IH i d) at 1 by lia. apply perm_swap.
+Qed.
+
+Lemma lq_spec_empty : lq_items lq_empty = [].
+Proof. reflexivity. Qed.
+Lemma lq_spec_enq q x : Permutation (lq_items (lq_enq q x)) (x :: lq_items q).
+Proof. unfold lq_items, lq_enq. apply Permutation_sym, Permutation_cons_append. Qed.
+Lemma lq_spec_deq_some q k x q' : lq_deq q k = Some (x, q') -> Permutation (lq_items q) (x :: lq_items q').
+Proof.
+  unfold lq_deq, lq_items. destruct q as [|y r]; [discriminate|].
+  assert (Hi : Nat.modulo k (length (y :: r)) < length (y :: r)) by (apply Nat.mod_upper_bound; simpl; lia).
+  set (i := Nat.modulo k (length (y :: r))) in *. clearbody i. intros H. injection H as <- <-.
+  exact (remove_nth_perm (y :: r) i y Hi).
+Qed.
+Lemma lq_spec_deq_none q k : lq_deq q k = None <-> lq_items q = [].
+Proof. unfold lq_deq, lq_items. destruct q; split; intros H; try reflexivity; discriminate. Qed.
